@@ -469,6 +469,20 @@ def translate(repo):
         raise TranslateError("Socket::readString: body not recognised (negative length treated as 0, length set to the bytes read — not strlen)")
     if not re.search(r"int\s+Socket_::read\(void\*\s*data,\s*int\s+size\)\s*\{\s*if\s*\(size\s*<=\s*0\)\s*return\s+0;", scpp):
         raise TranslateError("Socket_::read: a read of no bytes must return 0 without calling read() (it marked the socket as failed)")
+    # the receive loop of Socket_::read(void*, int): chunks accumulate at data, the loop runs until size0 bytes are in;
+    # what it RETURNS (the sum `s`, or e.g. the last chunk `n`) is regenerated (used by ByteArray read(n): a.resize(max(0, n)))
+    flat = re.sub(r"\s+", "", scpp)
+    m = re.search(r"intSocket_::read\(void\*data,intsize\)\{if\(size<=0\)return0;ints=0,size0=size;do\{#ifdef_WIN32intn=recv\(_handle,\(char\*\)data,size,0\);"
+                  r"#elseintn=::read\(_handle,\(char\*\)data,size\);#endifif\(!_blocking\)returnn;if\(n<=0\)\{_error=SOCKET_BAD_RECV;break;\}"
+                  r"data=\(char\*\)data\+n;s\+=n;size-=n;\}while\(s<size0\);return(s|n);\}", flat)
+    if not m:
+        raise TranslateError("Socket_::read(void*, int): receive loop not recognised (do { n = read(h, data, size); ...; data += n; s += n; size -= n; } while (s < size0); return s|n;)")
+    m2 = re.search(r"ByteArraySocket_::read\(intn\)\{ByteArraya\(\(n<0\)\?available\(\):n\);n=read\(&a\[0\],a\.length\(\)\);returna\.resize\(max\(0,n\)\);\}", flat)
+    if not m2:
+        raise TranslateError("Socket_::read(int n): ByteArray a(n); n = read(&a[0], a.length()); return a.resize(max(0, n)); expected")
+    L.append("/-- what `Socket_::read(void*, int)` returns after its receive loop: the sum of the chunks or the last chunk -/")
+    L.append("inductive RecvRet where\n  | total | last\nderiving DecidableEq, Repr\n")
+    L.append("def sockReadRet : RecvRet := .%s\n" % ("total" if m.group(1) == "s" else "last"))
     ds = re.findall(r"_endian\s*=\s*(ENDIAN_\w+);", scpp)
     if len(ds) < 2 or len(set(ds)) != 1 or ds[0] not in ENDIANS:
         raise TranslateError("Socket_ constructors: default byte order not uniform: %r" % ds)
